@@ -34,7 +34,11 @@ CONSTANTS NP,          \* number of pools (SessionNum)
           AllowExit,   \* the old server may exit
           AllowClose,  \* SessionManager.Close may be called
           TimerFIFO, Urgent,
-          Prune        \* set of known-finding classes whose executions are not explored further
+          Prune,       \* set of known-finding classes whose executions are not explored further
+          Fixed        \* finding classes that have been repaired in the code (the model then takes the repaired step):
+                       \*   "late-ack": handleHotRestartAck also requires listener and session to be in the hot-restart state
+                       \*   "hr-after-close": handleSessionManagerHotRestart ignores events once the manager is closed
+                       \*   "hr-on-closed-session": ... ignores events whose receiving session is closed
 Pools == 1..NP
 SessIds == 1..MaxSess
 NoSess == 0
@@ -112,7 +116,7 @@ LHotRestart(e) == /\ e \in Epochs
 \* handleHotRestartAck: checks the epoch only
 LAck(i) == /\ Quiet /\ oldUp /\ i \in Live /\ sess[i].srv = "old" /\ c2s[i] # <<>>
            /\ c2s' = [c2s EXCEPT ![i] = Tail(@)]
-           /\ IF Head(c2s[i]) = lepoch
+           /\ IF Head(c2s[i]) = lepoch /\ ("late-ack" \in Fixed => (lstate = "hot" /\ sess[i].sstate = "hot"))
                 THEN /\ ack' = ack - 1 /\ sess' = [sess EXCEPT ![i].sstate = "done"]
                      /\ kf' = IF lstate # "hot" THEN kf \cup {"late-ack"} ELSE kf
                 ELSE /\ ack' = ack /\ sess' = sess /\ kf' = kf
@@ -135,7 +139,9 @@ MOnHR(i) == /\ Quiet /\ i < nextId /\ s2c[i] # <<>>
             /\ LET e == Head(s2c[i])
                    p == sess[i].pool
                    starting == mstate # "hot"
-                   ignore == mstate = "hot" /\ mepoch # e
+                   ignore == \/ mstate = "hot" /\ mepoch # e
+                             \/ "hr-after-close" \in Fixed /\ closed # "no"
+                             \/ "hr-on-closed-session" \in Fixed /\ ~sess[i].alive
                    res0 == IF starting THEN [q \in Pools |-> NoSess] ELSE reserve
                    killed == IF starting THEN ReserveSet ELSE {}
                    swap == res0[p] = NoSess /\ Connect # "none"
